@@ -1391,6 +1391,14 @@ class Interp:
                 raise RaiseEx('AttributeError', f"type object '{v.name}' has no attribute '{a}'", n)
             return Builtin(v.name + '.' + a)
         if isinstance(v, FuncRef):
+            if a == '__name__':
+                return K(v.name)
+            if a == '__qualname__':
+                return K((v.cls.name + '.' if v.cls is not None else '') + v.name)
+            if a == '__module__':
+                return K('pytoniq_core.' + v.module)
+            if a == '__doc__':
+                return K(ast.get_docstring(v.node) if not isinstance(v.node, ast.Lambda) else None)
             return Sym(f'func.{a}')
         r = self.models.value_attr(self, v, a, n)
         if r is not None:
